@@ -1088,6 +1088,36 @@ pub fn check_a(ctx: &Ctx, case: &CaseA, counting: bool, at: &mut Option<Only>) -
 			Err(e) => fail!("known-header-replaced-by-mutant", "true header vanished: {:?}", e),
 		}
 	}
+	// a SIBLING of a known header (same parent, another timestamp, re-mined) that commits to a wrong
+	// header-MMR root: it has no more work than the header head, so it can never become the head — it
+	// must be refused all the same (single-header path and full-block path), and must not be stored
+	{
+		let t = hdr(plast).clone();
+		let q = hdr(plast - 1).clone();
+		let d = t.total_difficulty().to_num() - q.total_difficulty().to_num();
+		let mut m = t.clone();
+		m.timestamp = t.timestamp + Duration::seconds(1);
+		let mut v = m.prev_root.to_vec();
+		v[(case.salt % 32) as usize] ^= 0x10;
+		m.prev_root = Hash::from_vec(&v);
+		m.pow.nonce = 0;
+		remine(&mut m, d)?;
+		if m.hash() != t.hash() {
+			for (path, cb) in [(Path::Header, &ch), (Path::Block, &cf)] {
+				let before_hh = hh(cb)?;
+				let before_head = cb.c().head().map_err(|e| Fail::new("head-err", format!("{:?}", e)))?;
+				let r = deliver(path, cb, &m, &[], &blocks[plast - 1])?;
+				if counting {
+					ev.eval();
+					ev.class(&format!("A:fork_sibling_with_wrong_prev_root:{:?}:{}", path, if r.is_ok() { "returned_ok" } else { "refused" }));
+				}
+				ensure!(r.is_err(), format!("mutant-accepted:ForkSiblingPrevRoot:remined:{:?}", path), "chain of {} blocks: a sibling of the header at height {} (no more work than the head) with a wrong prev_root is accepted", n, plast);
+				let after_head = cb.c().head().map_err(|e| Fail::new("head-err", format!("{:?}", e)))?;
+				ensure!(hh(cb)? == before_hh && after_head == before_head, format!("head-moved-on-reject:ForkSiblingPrevRoot:{:?}", path), "heads moved");
+				ensure!(cb.c().get_block_header(&m.hash()).is_err(), format!("rejected-header-stored:ForkSiblingPrevRoot:{:?}", path), "refused sibling header is retrievable from the store");
+			}
+		}
+	}
 	// the same, one step earlier in a block's life: the true header is known HEADER-FIRST only (no body
 	// yet) and a full block arrives whose header has the same proof (hence the same hash) but another
 	// timestamp / cumulative difficulty. Its proof of work does not cover those bytes: it must be refused,
